@@ -66,3 +66,15 @@ Theorem C03_modules_filter : forall bs l ok,
   modules_spec bs l ok = (map module_ref (filter (is_module bs) l), status ok).
 Proof. exact modules_spec_filter. Qed.
 Print Assumptions C03_modules_filter.
+
+(* the provided Iterator methods are iterated next(): nth(k) is the k-th item of the run; behind a complete run it is
+   None, behind a run that ends in a panic it is that panic (never anything else, never a fault) *)
+Theorem C03_nth : forall fuel p h m b blen nxt items e k,
+  tagiter_run fuel p h m b blen nxt = (items, e) -> e <> Fault FFuel ->
+  rmap fst (tagiter_nth p h m b blen nxt k) =
+    match nth_error items k with
+    | Some r => Val (Some r)
+    | None => rmap (fun _ => None) e
+    end.
+Proof. exact tagiter_nth_run. Qed.
+Print Assumptions C03_nth.
